@@ -19,7 +19,8 @@ s2 = s.replace(old, new, count)
 try:
     open(p, "w").write(s2)
     t0 = time.time()
-    r = subprocess.run([os.path.join(V, "check"), prop, "--tier", tier], stdout=subprocess.PIPE, stderr=subprocess.STDOUT, cwd=V)
+    env = dict(os.environ, VERIF_EVIDENCE_DIR=os.path.join(os.environ.get("VERIF_BUILD", os.path.join(V, "build")), "sens_evidence"))
+    r = subprocess.run([os.path.join(V, "check"), prop, "--tier", tier], stdout=subprocess.PIPE, stderr=subprocess.STDOUT, cwd=V, env=env)
     dt = time.time() - t0
 finally:
     subprocess.run(["git", "-C", REPO, "checkout", "--", "."], check=True)
